@@ -22,6 +22,9 @@ pub struct DynSum {
     pub warm: bool,
     /// warm start with two dependencies already planned and the reconcile node kept needed by its own observer
     pub warm_deps: bool,
+    /// warm start, and the dependencies / staleness are also edited from top level between stabilises;
+    /// the rest of the alphabet is cut down to what those histories need
+    pub outside: bool,
 }
 
 const C_VAR: usize = 0;
@@ -190,7 +193,7 @@ fn reconcile(sh: &Rc<Sh>, expert: &WeakNode<SV>, children: &[Incr<SV>]) {
 
 impl Scenario for DynSum {
     fn name(&self) -> String {
-        format!("C14/dynamic_sum{}{}{}", if self.with_bind { "_with_bind_children" } else { "" }, if self.warm { "_warm" } else { "" }, if self.warm_deps { "_deps" } else { "" })
+        format!("C14/dynamic_sum{}{}{}", if self.with_bind { "_with_bind_children" } else { "" }, if self.warm { "_warm" } else { "" }, if self.warm_deps { "_deps" } else { "" }) + if self.outside { "_edited_between_stabilises" } else { "" }
     }
     fn run(&self) {
         let state = IncrState::new();
@@ -286,8 +289,9 @@ impl Scenario for DynSum {
                 op_log("(warm start: KeepChild, Observe, Stabilise)".into());
             }
             let mut stale_outside_done = false;
+            let mut reconcile_outside_done = false;
             // (only in the plain warm variant, to keep the other variants' trees as they were)
-            let stale_outside_allowed = self.warm && !self.warm_deps && !self.with_bind;
+            let stale_outside_allowed = self.outside;
             for _ in 0..self.len {
                 #[derive(Debug, Clone)]
                 enum A {
@@ -303,6 +307,7 @@ impl Scenario for DynSum {
                     AskStale,
                     AskInvalidate,
                     StaleOutside,
+                    ReconcileOutside,
                     Stabilise,
                 }
                 let mut acts = vec![];
@@ -316,9 +321,14 @@ impl Scenario for DynSum {
                         }
                     }
                 }
-                acts.push(A::WriteCtl);
-                acts.push(A::WriteX(0));
-                acts.push(A::WriteX(1));
+                if self.outside {
+                    acts.retain(|a| matches!(a, A::Plan(c, _) if *c == C_MAP));
+                    acts.push(A::WriteX(1));
+                } else {
+                    acts.push(A::WriteCtl);
+                    acts.push(A::WriteX(0));
+                    acts.push(A::WriteX(1));
+                }
                 if w.with_bind {
                     acts.push(A::WriteX(2));
                     acts.push(A::WriteSelB);
@@ -328,25 +338,30 @@ impl Scenario for DynSum {
                 } else {
                     acts.push(A::Unobserve);
                 }
-                if w.keep_child_obs.is_none() {
+                if self.outside {
+                } else if w.keep_child_obs.is_none() {
                     if !w.kept_once {
                         acts.push(A::KeepChild);
                     }
                 } else {
                     acts.push(A::DropKeepChild);
                 }
-                if w.keep_reconcile_obs.is_none() {
+                if w.keep_reconcile_obs.is_none() && !self.outside {
                     acts.push(A::KeepReconcile);
                 }
-                if !w.sh.want_stale.get() && !w.sh.did_stale.get() {
+                if !w.sh.want_stale.get() && !w.sh.did_stale.get() && !self.outside {
                     acts.push(A::AskStale);
                 }
-                if !w.sh.want_invalidate.get() && !w.sh.did_invalidate.get() {
+                if !w.sh.want_invalidate.get() && !w.sh.did_invalidate.get() && !self.outside {
                     acts.push(A::AskInvalidate);
                 }
                 if stale_outside_allowed && !stale_outside_done && !w.invalidated && w.obs.is_some() && w.obs_in_use {
                     // make_stale() called between two stabilises, on an expert node that is needed right now
                     acts.push(A::StaleOutside);
+                }
+                if stale_outside_allowed && !reconcile_outside_done && !w.invalidated {
+                    // the dependencies are brought in line with the plan from top level, between two stabilises
+                    acts.push(A::ReconcileOutside);
                 }
                 if w.dirty {
                     acts.push(A::Stabilise);
@@ -409,6 +424,12 @@ impl Scenario for DynSum {
                     }
                     A::AskInvalidate => {
                         w.sh.want_invalidate.set(true);
+                    }
+                    A::ReconcileOutside => {
+                        reconcile(&w.sh, &w.expert.weak(), &w.children);
+                        reconcile_outside_done = true;
+                        w.dirty = true;
+                        cover("dependencies-edited-between-stabilises");
                     }
                     A::StaleOutside => {
                         w.expert.make_stale();
